@@ -23,12 +23,29 @@ def tla_seq(xs):
 
 
 def supported_pack(pack) -> bool:
-    """The pack shape Search.tla models: plain strategies only (no factories), one expansion set, recursive (not iterative)."""
+    """The pack shape Search.tla models: inferral and symmetry strategies are plain strategies; the others may be factories."""
     from comb_spec_searcher.strategies.strategy import AbstractStrategy
 
-    strats = list(pack.initial_strats) + [x for st in pack.expansion_strats for x in st] + list(pack.ver_strats)
-    strats += list(pack.inferral_strats) + list(pack.symmetries)
-    return len(pack.expansion_strats) == 1 and not pack.iterative and all(isinstance(x, AbstractStrategy) for x in strats)
+    return all(isinstance(x, AbstractStrategy) for x in list(pack.inferral_strats) + list(pack.symmetries) + list(pack.ver_strats))
+
+
+def rules_of(st, c):
+    """The rules a strategy / strategy factory yields for class c (the fixture's side of _rules_from_strategy)."""
+    from comb_spec_searcher.strategies.strategy import AbstractStrategy, StrategyFactory
+    from comb_spec_searcher.strategies.rule import AbstractRule
+    from comb_spec_searcher.exception import StrategyDoesNotApply
+
+    out = []
+    if isinstance(st, AbstractStrategy):
+        if st.decomposition_function(c) is not None:
+            out.append(st(c))
+    elif isinstance(st, StrategyFactory):
+        for x in st(c):
+            if isinstance(x, AbstractRule):
+                out.append(x)
+            elif x.decomposition_function(c) is not None:
+                out.append(x(c))
+    return out
 
 
 def extract(session) -> Dict:
@@ -48,48 +65,54 @@ def extract(session) -> Dict:
         cid(c)
 
     def slot(st, c):
-        k = st.decomposition_function(c)
-        if k is None:
-            return None
-        rule = st(c)
-        return {"ch": [cid(x) for x in k], "pe": st.possibly_empty, "ip": st.ignore_parent, "wk": st.workable, "tw": st.is_two_way(c),
-                "sh": [int(x) for x in rule.shifts()], "nf": st.inferrable}
+        out = []
+        for rule in rules_of(st, c):
+            stg = rule.strategy
+            out.append({"par": cid(rule.comb_class), "ch": [cid(x) for x in rule.children], "pe": stg.possibly_empty, "ip": stg.ignore_parent,
+                        "wk": stg.workable, "tw": stg.is_two_way(rule.comb_class), "rv": bool(rule.is_reversible()), "sh": [int(x) for x in rule.shifts()], "nf": stg.inferrable})
+        return out
 
     init_strats = list(pack.initial_strats)
-    exp_strats = list(pack.expansion_strats[0])
+    exp_sets = [list(x) for x in pack.expansion_strats]
     inf_strats = list(pack.inferral_strats)
     sym_strats = list(pack.symmetries)
     initial, expand, inferral, symm = {}, {}, {}, {}
-    # the children of a rule may be classes the search never labelled (e.g. images under a symmetry of a class that was
-    # never symmetry-expanded): the table is closed under "what the search could touch next", one step
-    for table, strats in ((initial, init_strats), (expand, exp_strats), (inferral, inf_strats), (symm, sym_strats)):
+    for table, strats in ((initial, init_strats), (inferral, inf_strats), (symm, sym_strats)):
         for c in classes:
             sl = [slot(st, c) for st in strats]
-            if any(x is not None for x in sl):
+            if any(sl):
                 table[cid(c)] = sl
+    for c in classes:
+        sets = [[slot(st, c) for st in es] for es in exp_sets]
+        if any(any(x) for x in sets):
+            expand[cid(c)] = sets
     empty = sorted(i for c, i in ids.items() if c.is_empty())
     verified = sorted(i for c, i in ids.items() if not c.is_empty() and any(v.verified(c) for v in pack.ver_strats))
     return {"start": 0, "empty": empty, "verified": verified, "initial": initial, "expand": expand, "inferral": inferral, "symm": symm,
-            "n": len(ids), "ninf": len(inf_strats), "nsym": len(sym_strats),
-            "ninit": len(init_strats), "nexp": len(exp_strats), "flavour": "forest" if session.flavour == "forest" else "base"}
+            "n": len(ids), "ninf": len(inf_strats), "nsym": len(sym_strats), "ninit": len(init_strats), "nexps": [len(x) for x in exp_sets],
+            "iterative": bool(pack.iterative), "flavour": "forest" if session.flavour == "forest" else "base",
+            "reverse": bool(session.flavour == "forest" and session.ruledb.reverse)}
 
 
 def universe_tla(u) -> str:
     def rule(r):
-        if r is None:
-            return "<<>>"
-        return "<<R(%s, %s, %s, %s, %s, %s, %s)>>" % (tla_seq(r["ch"]), tla_bool(r["pe"]), tla_bool(r["ip"]), tla_bool(r["wk"]), tla_bool(r["tw"]), tla_seq(r["sh"]),
-                                                     tla_bool(r.get("nf", True)))
+        return "R(%d, %s, %s, %s, %s, %s, %s, %s, %s)" % (r["par"], tla_seq(r["ch"]), tla_bool(r["pe"]), tla_bool(r["ip"]), tla_bool(r["wk"]), tla_bool(r["tw"]),
+                                                          tla_bool(r.get("rv", False)), tla_seq(r["sh"]), tla_bool(r.get("nf", True)))
 
-    def fn(m):
+    def slot(sl):
+        return "<<" + ", ".join(rule(r) for r in sl) + ">>"
+
+    def fn(m, render):
         if not m:
             return "<<>>"
-        return "(" + " @@ ".join("%d :> <<%s>>" % (int(k), ", ".join(rule(x) for x in v)) for k, v in sorted(m.items(), key=lambda kv: int(kv[0]))) + ")"
+        return "(" + " @@ ".join("%d :> %s" % (int(k), render(v)) for k, v in sorted(m.items(), key=lambda kv: int(kv[0]))) + ")"
 
-    return ("[start |-> 0, empty |-> {%s}, verified |-> {%s}, ninf |-> %d, ninit |-> %d, nexp |-> %d, nsym |-> %d, flavour |-> \"%s\", "
+    slots = lambda v: "<<" + ", ".join(slot(x) for x in v) + ">>"  # noqa: E731
+    sets = lambda v: "<<" + ", ".join(slots(x) for x in v) + ">>"  # noqa: E731
+    return ("[start |-> 0, empty |-> {%s}, verified |-> {%s}, ninf |-> %d, ninit |-> %d, nexps |-> %s, nsym |-> %d, flavour |-> \"%s\", reverse |-> %s, iterative |-> %s, "
             "inferral |-> %s, symm |-> %s, initial |-> %s, expand |-> %s]") % (
-        ", ".join(map(str, u["empty"])), ", ".join(map(str, u["verified"])), u.get("ninf", 0), u["ninit"], u["nexp"], u.get("nsym", 0), u["flavour"],
-        fn(u.get("inferral", {})), fn(u.get("symm", {})), fn(u["initial"]), fn(u["expand"]))
+        ", ".join(map(str, u["empty"])), ", ".join(map(str, u["verified"])), u.get("ninf", 0), u["ninit"], tla_seq(u["nexps"]), u.get("nsym", 0), u["flavour"],
+        tla_bool(u.get("reverse", False)), tla_bool(u.get("iterative", False)), fn(u.get("inferral", {}), slots), fn(u.get("symm", {}), slots), fn(u["initial"], slots), fn(u["expand"], sets))
 
 
 def loop_events(session) -> List[dict]:
@@ -113,7 +136,7 @@ def loop_events(session) -> List[dict]:
             ei += 1
         else:
             kind = "skip"
-        out.append({"op": "packet", "l": r["l"], "k": r["k"], "kind": kind, "nrules": session.sizes[n][0], "nlabels": session.sizes[n][1]})
+        out.append({"op": "packet", "l": r["l"], "k": r["k"], "s": r.get("s", 0), "i": r.get("i", 0), "kind": kind, "nrules": session.sizes[n][0], "nlabels": session.sizes[n][1]})
     while ci < len(checks):
         out.append({"op": "check", "ans": checks[ci][1]})
         ci += 1
@@ -130,8 +153,7 @@ def run_model_session(cfg):
     prefix, pats, alph, st, pk, fl, sch, reverse = cfg
     if not supported_pack(pack):
         raise tlc.MachineryError("pack %s is outside the pack shape of Search.tla" % pk)
-    # forest flavour without reverse rules (the model's forest keys are the forward keys)
-    s = Session(start, pack, flavour=fl, schedule=sc.SCHEDULES[sch], reverse=(reverse and fl != "forest"), record=("queue",))
+    s = Session(start, pack, flavour=fl, schedule=sc.SCHEDULES[sch], reverse=reverse, record=("queue",))
     s.sizes = []
     # sizes after every queue hand-out: wrap the recorder's event sink
     orig_ev = s.q_rec._ev
@@ -176,8 +198,8 @@ def run_model_session(cfg):
         events = loop_events(s)
     finally:
         s.close()
-    tid = sc.tid_of(cfg)
-    return {"tid": tid, "universe": u, "events": events, "outcome": outcome, "sig": "flavour=%s" % fl}
+    tid = sc.tid_of(cfg) + ("" if reverse or fl != "forest" else "|norev")
+    return {"tid": tid, "universe": u, "events": events, "outcome": outcome, "sig": "pack=%s/flavour=%s" % (pk, fl)}
 
 
 def validate_loop(run, job, idx):
@@ -196,7 +218,7 @@ def model_check_universe(run, u, idx, max_checks=5):
 
 
 MODEL_PACKS = ["two", "split", "lazy", "trim", "mono", "inf", "sym", "syminf", "merge", "rename", "trimsym", "oneway", "onewaysym", "noinf", "hidden",
-               "trimonly", "trimrename"]
+               "trimonly", "trimrename", "factory", "pfactory", "pfactory2", "fac2", "twosets", "noinit", "iter", "itersyminf", "pv2", "redpar"]
 PATTERNS_Q = [("aa",), ("aba", "bb"), ("ab",), ("aa", "aab"), ("abba",), ("aab", "bba"), ("aa", "bb"), ("b",)]
 PATTERNS_T = PATTERNS_Q + [("aaa",), ("abb", "bab"), ("aabb",), ("abab",), ("a", "aaa"), ("ab", "ba"), ("aaa", "aba", "bb")]
 
@@ -215,14 +237,23 @@ def campaign(run, tier, seed, want_mc=True):
     n = 0
     for pk in MODEL_PACKS:
         for p in pats[: (3 if tier == "quick" else len(pats))]:
-            for fl in ("default", "forest"):
+            for fl, rev in (("default", True), ("forest", True), ("forest", False)):
                 if fl != "forest" and sc.PACKS[pk].get("lazy"):
+                    continue
+                if fl == "forest" and sc.PACKS[pk].get("iterative"):
+                    continue
+                if tier == "quick" and not rev and n % 3:
                     continue
                 scheds = ("one", "three", "all", "mixed")
                 for sch in ((scheds[n % 4],) if tier == "quick" else scheds):
-                    cfgs.append(("", p, "ab", sc.PACK_STATS.get(pk, "s0"), pk, fl, sch, True))
+                    cfgs.append(("", p, "ab", sc.PACK_STATS.get(pk, "s0"), pk, fl, sch, rev))
                 n += 1
-    cfgs += [("", p, "ab", "s0", "plain", "forest", sch, True) for p in pats for sch in ("one", "all")]
+    # a pack in which the start class is only reachable through a foreign-parent rule / a reverse rule
+    for p in (("aa",), ("aa", "bb"), ("aba",), ("aab",)):
+        for fl in ("default", "forest"):
+            cfgs.append(("a", p, "ab", "s0", "needrev", fl, "one" if fl == "default" else "mixed", True))
+    cfgs += [("", p, "ab", "s0", "plain", "forest", sch, rev) for p in pats for sch, rev in (("one", True), ("all", False))]
+    cfgs = list(dict.fromkeys(cfgs))
     jobs = pmap(run_model_session, cfgs, procs=16, chunk=1)
     with concurrent.futures.ThreadPoolExecutor(max_workers=12) as ex:
         verdicts = list(ex.map(lambda ij: validate_loop(run, ij[1], ij[0]), list(enumerate(jobs))))
